@@ -8,7 +8,7 @@ Section Halves.
   Context {C : Type} (keq : C -> C -> bool) (is_str : C -> bool) (none_c : C) (str_c : str -> C).
 
   (* everything of blocks_to_bytes before the final assembly loop: the integer operand of every
-     instruction (jumps relaxed, free variables offset by the number of cell variables) and the tables *)
+     instruction (free variables offset by the number of cell variables, then jumps relaxed) and the tables *)
   Definition encode_values (c : cfg) (blocks : list (list (instr_ C))) (additional : list (arg_ C))
     (freevars : list str) (block_type : option function) : res (list Z * encstate C) :=
     match enc_init keq str_c block_type with
@@ -18,13 +18,13 @@ Section Halves.
         match first_args keq is_str none_c instrs block_type freevars st0 with
         | Err e => Err e
         | OK (vals0, st1) =>
-            match relax (3 * length instrs + 2) c blocks vals0 with
+            match add_additional keq is_str none_c additional block_type freevars st1 with
             | Err e => Err e
-            | OK vals1 =>
-                match add_additional keq is_str none_c additional block_type freevars st1 with
+            | OK st2 =>
+                match relax (3 * length instrs + 2) c blocks
+                        (add_freevar_offset (zlen (fa_items (e_cellvars st2))) instrs vals0) with
                 | Err e => Err e
-                | OK st2 =>
-                    OK (add_freevar_offset (zlen (fa_items (e_cellvars st2))) instrs vals1, st2)
+                | OK vals2 => OK (vals2, st2)
                 end
             end
         end
@@ -85,13 +85,19 @@ Definition p_nargs (p : pinstr) : Z := snd (fst (fst p)).
 Definition p_first (p : pinstr) : Z := snd (fst p).
 Definition p_next (p : pinstr) : Z := snd p.
 
+(* every instruction that is not a jump uses the minimal number of code units for its operand (only
+   jumps record redundant EXTENDED_ARG prefixes in _n_args_override) *)
+Definition is_jump_op (c : cfg) (op : Z) : bool := zmem op (cfg_hasjabs c) || zmem op (cfg_hasjrel c).
+Definition minimal_widths (c : cfg) (ps : list pinstr) : bool :=
+  forallb (fun p => is_jump_op c (p_op p) || (p_nargs p =? instrsize (p_arg p))) ps.
+
 (** * Component 1: re-encoding decoded blocks reproduces every operand value and every table *)
 Definition S_K3_values : Prop :=
   forall c b lm names varnames freevars cellvars (ks : list const) bt a blocks addl lm' ps,
   cfg_ops_wf c = true -> code_ok c b = true ->
   targets_ok c b names varnames freevars cellvars ks = true ->
   tables_wf varnames freevars a = true -> bt_consistent bt a ks = true ->
-  parse_bytes c b 0 0 0 = OK ps ->
+  parse_bytes c b 0 0 0 = OK ps -> minimal_widths c ps = true ->
   bytes_to_blocks key_eqb c b lm names varnames freevars cellvars ks bt a = OK (blocks, addl, lm') ->
   exists st,
     encode_values key_eqb is_str_const (KInner INone) (fun s => KInner (IStr s))
@@ -184,7 +190,7 @@ Definition rt_wf (c : cfg) (code : pycode) (ks : list const) : bool :=
   && (if cfg_v38 c then true else co_posonlyargcount code =? 0)
   && nodup_str (co_freevars code) && names_ok (co_varnames code)
   && match parse_bytes c (co_code code) 0 0 0, to_line_mapping (cfg_v310 c) (co_linetable code) (zlen (co_code code)) with
-     | OK ps, OK lm0 => lines_on_instrs lm0 ps
+     | OK ps, OK lm0 => lines_on_instrs lm0 ps && minimal_widths c ps
                         && forallb (fun p => zmem (p_op p) (cfg_opcodes c)) ps
                         && negb (match ps with [] => true | _ => false end)
      | _, _ => false
